@@ -245,14 +245,19 @@ def build(spec, space='X'):
         b = build(spec['base'], space)
         topo = b.topo
         picks = []
+        cap = {1: 40, 2: 48, 3: 36}[b.nd]
         for lev in range(spec['nlevels']):
             n = len(topo)
-            if n > 70:
+            grow = 2**b.nd - 1
+            room = (cap - n) // grow
+            if room < 1:
                 break
             if 'indices' in spec:
+                if lev >= len(spec['indices']):
+                    break
                 idx = spec['indices'][lev]
             else:
-                idx = _pick_subset(n, spec['fracs'][lev], spec['pick'] + lev)
+                idx = _pick_subset(n, spec['fracs'][lev], spec['pick'] + lev)[:room]
             picks.append(idx)
             topo = topo.refined_by(idx)
         spec['indices'] = picks  # make the spec self-contained for replay
